@@ -153,6 +153,10 @@ def corpus():
   frames["ipv6_dest_opts_frag_udp"] = mac + bytes.fromhex("86dd") + v6(60, 24) + bytes([44, 0, 1, 4, 0, 0, 0, 0]) \
     + bytes([17, 0, 0, 0, 0, 0, 0, 1]) + udp8
   frames["ipv6_ext_header_cut"] = mac + bytes.fromhex("86dd") + v6(0, 8)
+  # a CHAIN of extension headers (hop-by-hop -> routing -> destination options -> udp): the bytes left for the second and
+  # third header depend on how the parser accounts for the first (added 2026-09-25; every truncation is enumerated below)
+  frames["ipv6_ext_chain_udp"] = mac + bytes.fromhex("86dd") + v6(0, 36) + bytes([43, 0, 1, 4, 0, 0, 0, 0]) \
+    + bytes([60, 0, 0, 0, 0, 0, 0, 0]) + bytes([17, 0, 1, 4, 0, 0, 0, 0]) + udp8 + b"data"
   frames["eap_request_identity"] = mac + bytes.fromhex("888e") + bytes([1, 0, 0, 9, 1, 1, 0, 9, 1]) + b"user"
   frames["eap_request_md5"] = mac + bytes.fromhex("888e") + bytes([1, 0, 0, 6, 1, 2, 0, 6, 4, 0])
   ip4 = lambda proto, body: bytes([0x45, 0]) + bytes([(20 + len(body)) >> 8, (20 + len(body)) & 255]) + bytes.fromhex(
@@ -223,6 +227,18 @@ def probe(raw):
   return None
 
 
+def probe_deep(raw):
+  """like probe(), without the chain-length sanity bound (these frames ARE deep)"""
+  e = pkt.ethernet(raw=raw)
+  out = e.pack()
+  if not isinstance(out, bytes):
+    return "pack() returned %s" % type(out).__name__
+  str(e)
+  e.dump()
+  e.effective_ethertype
+  return None
+
+
 @standin(P, bound="corpus of valid frames of every supported protocol: every truncation length; every byte position x "
                   "{0x00,0xff,+1,^0x80} (quick) / all 256 values (thorough); 20k random frames (quick) / 10^5 per seed",
          target="pox.lib.packet: every parser reachable from ethernet.parse", timeout_s=280)
@@ -240,6 +256,14 @@ def hostile_frames_never_raise(tier, seed):
           continue
         yield ("%s byte%d=%d" % (name, pos, v),
                lambda good=good, pos=pos, v=v: probe(good[:pos] + bytes([v]) + good[pos + 1:]))
+  # frames that nest one header type as deep as an Ethernet payload allows (1500 bytes): 802.1Q tags (4 bytes each) and MPLS
+  # labels (4 bytes each, bottom-of-stack bit clear).  Parsing, printing and packing recurse per layer.
+  mac = bytes.fromhex("0102030405060a0b0c0d0e0f")
+  for n in (50, 200, 373):
+    deep = mac + bytes.fromhex("8100") + bytes.fromhex("00018100") * (n - 1) + bytes.fromhex("00010800") + bytes(8)
+    yield ("vlan tags nested %d deep (%d bytes)" % (n, len(deep)), lambda deep=deep: probe_deep(deep))
+    deep = mac + bytes.fromhex("8847") + bytes.fromhex("00001040") * (n - 1) + bytes.fromhex("00001140") + bytes(8)
+    yield ("mpls labels stacked %d deep (%d bytes)" % (n, len(deep)), lambda deep=deep: probe_deep(deep))
   ethertypes = [0x0800, 0x0806, 0x8100, 0x86dd, 0x88cc, 0x888e, 0x8847, 0x0020, 0x05dc, 0x9000]
   for r in range(20000 if tier == "quick" else 100000):
     n = rng.choice([0, 1, 13, 14, 15, 20, 34, 60, rng.randrange(0, 200)])
